@@ -43,9 +43,11 @@ ASSUMPTIONS = [
     "wLength > 0; handshakes_in.nak/stall, rx and tokenizer inputs tied to 0",
     "tx.ready (the packet generator) is free every cycle",
 ]
-BOUNDS = "BMC from reset; quick: mps 8, handler level K=15 (start + latency + a full packet + stalls), request level " \
-         "free tx.ready K=14 (first packet) and, with tx.ready tied to 1, K=24 (two packets + ZLP / a retry + status); thorough: mps 8/16 required (handler K=20/25 incl. a second request, request " \
-         "level free K=18, tx.ready=1 layer K=28 (two to three packets + retry) at mps 8; mps 16 K=44 best effort), mps 32/64 best effort (K=mps+8, assertions only)"
+BOUNDS = "BMC from reset.  quick: sparse collection, mps 8: handler level K=14 per handler (start + latency + a full " \
+         "packet + stalls), two-request mux K=12, request level free tx.ready K=12 (first packet) and, with tx.ready " \
+         "tied to 1 and wValue pinned to the one-packet descriptor, K=24 (packet + lost ACK/retry + ZLP + status).  " \
+         "thorough: sparse+dense+suite, mps 8/16 required (handler K=18/25, two-request K=12..16, request level free " \
+         "K=18 and tx.ready=1 with symbolic wValue K=28), mps 16 request level and mps 32/64 best effort"
 OUTSIDE = "descriptors longer than 2*mps+3 bytes except in the suite collection; foreign ACK handshakes (for other " \
           "endpoints) while one of our packets is unacknowledged (C08/C14 territory; observed: a lost ACK leaves " \
           "expecting_ack set across the status stage, so a foreign ACK early in the NEXT GET_DESCRIPTOR advances " \
@@ -255,55 +257,80 @@ class RequestHarness(Harness):
         return d
 
 
+STMT = ["payload", "first", "last", "gap", "zlp", "stall_exists", "data_nonexistent", "no_response", "spurious", "too_long"]
+H2_ASSERTS = ["stall_exists", "data_nonexistent", "no_response", "spurious", "zlp"]
+DEEP_COVERS = ["full_packet", "zlp", "continuation", "exact_multiple_zlp", "retransmission", "status_after_data"]
+
+
+def _h(variant, kind, mps, K, *, split, required=True, covers=None, cosim=0):
+    f = (lambda a=variant, b=kind, c=mps: HandlerHarness(a, b, c))
+    tag = f"{variant}_{kind}_mps{mps}"
+    qs = [Query(f"bmc_h_{tag}", f, K, timeout=900, split=split, required=required, covers=covers,
+                desc=f"handler level {tag}: value/length/start_position symbolic constants of the run, "
+                     "start timing and tx.ready free every cycle")]
+    if cosim:
+        qs.append(Query(f"cosim_h_{tag}", f, 0, kind="cosim", cosim_cycles=cosim))
+    return qs
+
+
+def _h2(variant, K, *, split):
+    f = (lambda a=variant: HandlerHarness(a, "sparse", 8, two_values=True))
+    return [Query(f"bmc_h2_{variant}_sparse_mps8", f, K, timeout=900, split=split, asserts=H2_ASSERTS,
+                  covers=["second_request", "stall", "short_packet"],
+                  desc=f"handler level {variant}: two different symbolic requests (value, length, offset), every start "
+                       "picks one of them: state carried from one request to the next (stall latches); "
+                       "stall/no-data/ZLP clauses only")]
+
+
+def _r(ab, kind, mps, rt, *, kfree=None, kdeep=None, pin=None, split, required=True, cosim=0, deep_asserts=STMT,
+       deep_covers=DEEP_COVERS):
+    f = (lambda a=ab, b=kind, c=mps, d=rt: RequestHarness(a, b, c, d))
+    tag = f"{'dist' if ab else 'block'}_{kind}_mps{mps}{'_rt' if rt else ''}"
+    qs = []
+    if kfree:
+        qs.append(Query(f"bmc_r_{tag}", f, kfree, timeout=900, split=split, required=required, covers=[], asserts=STMT,
+                        desc=f"request level {tag}: host model (IN / ACK delivered or lost / foreign ACK / status), setup "
+                             "fields const symbolic, tx.ready free: first packet"))
+    if kdeep:
+        layer = {"ready": 1}
+        what = "layer: tx.ready always 1 (PHY never stalls)"
+        name = f"bmc_r_ready1_{tag}"
+        if pin is not None:
+            layer["value"] = pin
+            what += f", wValue pinned to 0x{pin:04x} (a descriptor of exactly one packet)"
+            name = f"bmc_r_ready1_v{pin:04x}_{tag}"
+        qs.append(Query(name, f, kdeep, timeout=900, split=split, required=required, layer=layer,
+                        asserts=deep_asserts, covers=deep_covers,
+                        desc=f"{what}.  request level {tag}: whole data stage (continuation packets, lost ACK + retry, "
+                             "terminating short packet / ZLP, status)"))
+    if cosim:
+        qs.append(Query(f"cosim_r_{tag}", f, 0, kind="cosim", cosim_cycles=cosim))
+    return qs
+
+
 def queries(tier):
     qs = []
-    quick = tier == "quick"
-    if quick:
-        hcfg = [("block", "sparse", 8, 15), ("distributed", "sparse", 8, 15), ("mux", "sparse", 8, 15),
-                ("block", "dense", 8, 14)]
-        rcfg = [(False, "sparse", 8, False, 24), (True, "sparse", 8, False, 24), (False, "sparse", 8, True, 24)]
-    else:
-        hcfg = [(v, k, 8, 18) for v in ("block", "distributed", "mux") for k in ("sparse", "dense")]
-        hcfg += [(v, "sparse", 16, 25) for v in ("block", "distributed", "mux")]
-        hcfg += [("block", "suite", 8, 16), ("distributed", "suite", 8, 16), ("block", "dense", 32, 40),
-                 ("distributed", "sparse", 32, 40), ("block", "sparse", 64, 72), ("distributed", "dense", 64, 72)]
-        rcfg = [(False, "sparse", 8, False, 28), (True, "sparse", 8, False, 28), (False, "dense", 8, True, 28),
-                (True, "dense", 8, True, 28), (False, "sparse", 16, False, 44)]
-    stmt = ["payload", "first", "last", "gap", "zlp", "stall_exists", "data_nonexistent", "no_response", "spurious",
-            "too_long"]
-    for variant, kind, mps, K in hcfg:
-        f = (lambda a=variant, b=kind, c=mps: HandlerHarness(a, b, c))
-        tag = f"{variant}_{kind}_mps{mps}"
-        big = mps >= 32
-        qs.append(Query(f"bmc_h_{tag}", f, K, timeout=900, required=not big,
-                        covers=[] if big else None,
-                        desc=f"handler level {tag}: value/length/start_position symbolic constants of the run, "
-                             "start timing and tx.ready free every cycle"))
-        if quick and kind != "sparse":
-            continue
-        qs.append(Query(f"cosim_h_{tag}", f, 0, kind="cosim", cosim_cycles=200 if quick else 500))
-    for variant in (("mux",) if quick else ("mux", "block", "distributed")):
-        f2 = (lambda a=variant: HandlerHarness(a, "sparse", 8, two_values=True))
-        qs.append(Query(f"bmc_h2_{variant}_sparse_mps8", f2, 12 if (quick or variant != "mux") else 16, timeout=900, split=True,
-                        asserts=["stall_exists", "data_nonexistent", "no_response", "spurious", "zlp"],
-                        covers=["second_request", "stall", "short_packet"],
-                        desc=f"handler level {variant}: two different symbolic requests (value, length, offset), every start "
-                             "picks one of them: state carried from one request to the next (stall latches); "
-                             "stall/no-data/ZLP clauses only"))
-    for ab, kind, mps, rt, K in rcfg:
-        f = (lambda a=ab, b=kind, c=mps, d=rt: RequestHarness(a, b, c, d))
-        tag = f"{'dist' if ab else 'block'}_{kind}_mps{mps}{'_rt' if rt else ''}"
-        kfree = mps + (6 if quick else 10)
-        qs.append(Query(f"bmc_r_{tag}", f, kfree, timeout=900, required=(mps == 8), covers=[],
-                        asserts=stmt if quick else None,
-                        desc=f"request level {tag}: host model (IN / ACK delivered or lost / status), setup fields const "
-                             "symbolic, tx.ready free: first packet"))
-        qs.append(Query(f"bmc_r_ready1_{tag}", f, K, timeout=900, required=(mps == 8),
-                        layer={"ready": 1}, asserts=stmt,
-                        covers=["full_packet", "short_packet", "zlp", "stall", "continuation", "exact_multiple_zlp",
-                                "retransmission", "status_after_data"] + ([] if quick else ["third_packet", "cut_by_wlength"]),
-                        desc=f"layer: tx.ready always 1 (PHY never stalls).  request level {tag}: whole data stage "
-                             "(continuation packets, lost ACK + retry, terminating short packet / ZLP, status)"))
-        if not quick or not rt:
-            qs.append(Query(f"cosim_r_{tag}", f, 0, kind="cosim", cosim_cycles=200 if quick else 500))
+    if tier == "quick":
+        # one collection x one packet size per handler, one process per family (split=False)
+        qs += _h("block", "sparse", 8, 14, split=False)
+        qs += _h("distributed", "sparse", 8, 14, split=False)
+        qs += _h("mux", "sparse", 8, 14, split=False, cosim=200)
+        qs += _h2("mux", 12, split=False)
+        qs += _r(False, "sparse", 8, False, kfree=12, kdeep=24, pin=0x0100, split=False, cosim=200)
+        qs += _r(True, "sparse", 8, False, kdeep=24, pin=0x0100, split=False)
+        return qs
+    for v in ("block", "distributed", "mux"):
+        for k in ("sparse", "dense"):
+            qs += _h(v, k, 8, 18, split=True, cosim=500)
+        qs += _h(v, "sparse", 16, 25, split=True)
+        qs += _h2(v, 16 if v == "mux" else 12, split=True)
+    qs += _h("block", "suite", 8, 16, split=True, cosim=500)
+    qs += _h("distributed", "suite", 8, 16, split=True)
+    for v, k, p in (("block", "dense", 32), ("distributed", "sparse", 32), ("block", "sparse", 64), ("distributed", "dense", 64)):
+        qs += _h(v, k, p, p + 8, split=True, required=False, covers=[])
+    full_covers = DEEP_COVERS + ["short_packet", "stall", "third_packet", "cut_by_wlength"]
+    for ab, k, rt in ((False, "sparse", False), (True, "sparse", False), (False, "dense", True), (True, "dense", True)):
+        qs += _r(ab, k, 8, rt, kfree=18, kdeep=28, split=True, cosim=500, deep_covers=full_covers)
+    qs += _r(False, "sparse", 8, True, kdeep=24, pin=0x0100, split=True)
+    qs += _r(False, "sparse", 16, False, kfree=26, kdeep=44, split=True, required=False, deep_covers=DEEP_COVERS)
     return qs
